@@ -38,7 +38,8 @@ pub fn scenario_rows() -> Vec<Tags> {
         def("c", &["a"], vec![]),
         def("d", &["b", "c"], vec![]),
         def("entity", &[], vec![]),
-        def("e2", &["entity"], vec![]),
+        // prototypes given as text, the way the Project Haystack defs give them
+        def("e2", &["entity"], vec![("children", V::str("pt point\n// a comment\n\n  eq equip b:\"x\"\nnot a tag line {\n"))]),
         def("b-c", &["e2"], vec![]),
         def("relationship", &[], vec![]),
         def("rel", &["relationship"], vec![("transitive", V::Marker)]),
@@ -269,6 +270,107 @@ impl NsBox {
     pub fn get(&self) -> &'static Namespace<'static> {
         unsafe { &*self.ptr }
     }
+    /// a namespace over other rows (C14-T)
+    pub fn from_rows(mode: hooks::Mode, rows: &[Tags]) -> NsBox {
+        hooks::set_mode(mode);
+        hooks::set_shim_config(hooks::ShimConfig { shards: SHARDS, shard_of, lock_base: 0 });
+        let ns = Namespace::make(grid_of(rows));
+        hooks::set_mode(hooks::Mode::Real);
+        NsBox { ptr: Box::into_raw(Box::new(ns)) }
+    }
+}
+
+/// the scenario with a different taxonomy under the same names: d is only a b, b is a root,
+/// the relationship is not transitive, the associations point elsewhere, other prototypes
+pub fn scenario_rows_variant() -> Vec<Tags> {
+    let mut rows = scenario_rows();
+    let set = |rows: &mut Vec<Tags>, name: &str, key: &str, val: Option<V>| {
+        for r in rows.iter_mut() {
+            if r.iter().any(|(k, v)| k == "def" && matches!(v, V::Sym(n) if n == name)) {
+                r.retain(|(k, _)| k != key);
+                if let Some(v) = &val {
+                    r.push((key.to_string(), v.clone()));
+                }
+                r.sort_by(|a, b| a.0.cmp(&b.0));
+            }
+        }
+    };
+    set(&mut rows, "d", "is", Some(sym_list(&["b"])));
+    set(&mut rows, "b", "is", Some(sym_list(&[])));
+    set(&mut rows, "rel", "transitive", None);
+    set(&mut rows, "t1", "tagOn", Some(sym_list(&["entity"])));
+    set(&mut rows, "t2", "tagOn", Some(sym_list(&["a", "d"])));
+    set(&mut rows, "q1", "quantityOf", Some(sym_list(&["d"])));
+    set(&mut rows, "m2", "is", Some(sym_list(&["c"])));
+    set(&mut rows, "plant", "children", Some(V::List(vec![V::dict(&[("eq", V::Marker)])])));
+    set(&mut rows, "plant", "childrenFlatten", Some(sym_list(&["entity"])));
+    set(&mut rows, "b-c", "is", Some(sym_list(&["a"])));
+    set(&mut rows, "e2", "children", Some(V::str("fan equip\ndamper equip d")));
+    rows
+}
+
+/// C14-T: two namespaces with the same def names and different taxonomies, alive together and
+/// queried alternately (one scheduled thread over the Shim): q_i on the first, q_j on the second,
+/// q_i on the second, q_j on the first. Returns the four answers.
+fn two_namespace_history(i: usize, j: usize, part: &Arc<Partition>) -> Result<Vec<String>, String> {
+    let (b1, b2) = (NsBox::new(hooks::Mode::Shim), NsBox::from_rows(hooks::Mode::Shim, &scenario_rows_variant()));
+    let (n1, n2) = (b1.get(), b2.get());
+    let p2 = part.clone();
+    let body: Box<dyn FnOnce() -> Vec<String> + Send> = Box::new(move || {
+        let qs = queries();
+        vec![run_query(n1, &qs[i]), run_query(n2, &qs[j]), run_query(n2, &qs[i]), run_query(n1, &qs[j])]
+    });
+    let setup: Arc<dyn Fn() + Send + Sync> = Arc::new(move || PARTITION.with(|x| *x.borrow_mut() = p2.clone()));
+    let (ex, _ch) = run_threads(Chooser::replaying(vec![]), vec![body], setup);
+    if let Some(d) = ex.deadlock {
+        return Err(d);
+    }
+    ex.results.into_iter().next().unwrap()
+}
+
+fn cold_answers_variant(part: &Arc<Partition>) -> Result<Vec<String>, String> {
+    let n = queries().len() - EXTRA;
+    (0..n)
+        .map(|i| {
+            let b = NsBox::from_rows(hooks::Mode::Shim, &scenario_rows_variant());
+            let ns = b.get();
+            let p2 = part.clone();
+            let body: Box<dyn FnOnce() -> String + Send> = Box::new(move || run_query(ns, &queries()[i]));
+            let setup: Arc<dyn Fn() + Send + Sync> = Arc::new(move || PARTITION.with(|x| *x.borrow_mut() = p2.clone()));
+            let (ex, _ch) = run_threads(Chooser::replaying(vec![]), vec![body], setup);
+            if let Some(d) = ex.deadlock {
+                return Err(d);
+            }
+            ex.results.into_iter().next().unwrap()
+        })
+        .collect()
+}
+
+/// the variant's cold answers, computed in a fresh child process (state that is global to the
+/// process — a static memo keyed by def name — would otherwise already be in the baseline)
+fn cold_variant_from_child() -> Result<Vec<String>, String> {
+    let describe = |_o: u64| json!({"two_namespaces": [0, 0]});
+    let job = Job { prop: "C14", tier: "quick", job: "cold-variant", n: 1, chunk: 1, env: vec![], exe: None, describe: &describe };
+    let l = run_job(&job);
+    if let Some(f) = l.fails.values().next() {
+        return Err(format!("{}: {}", f.sig, f.detail));
+    }
+    l.samples
+        .iter()
+        .find_map(|s| s["cold_variant"].as_array().map(|a| a.iter().map(|x| x.as_str().unwrap_or("").to_string()).collect()))
+        .ok_or_else(|| "the child did not return the variant's cold answers".to_string())
+}
+
+fn two_namespace_case(i: usize, j: usize, cold: &[String], cold2: &[String], part: &Arc<Partition>) -> Verdict {
+    let a = with_partition(part, || two_namespace_history(i, j, part)).map_err(|e| ("history-panic:two-namespaces".to_string(), e))?;
+    let want = [&cold[i], &cold2[j], &cold2[i], &cold[j]];
+    for (k, (got, w)) in a.iter().zip(want.iter()).enumerate() {
+        if got != *w {
+            let qs = queries();
+            return Err(("other-namespace-changes-answer".into(), format!("two namespaces alive (same names, different taxonomies), queries {:?} and {:?} alternately: answer #{k} is {got:?}, that namespace alone answers {w:?}", qs[i], qs[j])));
+        }
+    }
+    Ok(())
 }
 impl Drop for NsBox {
     fn drop(&mut self) {
@@ -670,6 +772,15 @@ pub fn child(_tier: Tier, job: String, _start: u64, _end: u64, ctx: &mut ChildCt
     // the Real-DashMap history search runs isolated: a guard held across an insert into the same
     // shard self-deadlocks inside the genuine DashMap and is seen by the parent as a hang
     ctx.begin(0);
+    if job == "cold-variant" {
+        // the variant namespace's answers from a process that has never seen the other namespace
+        let part = Arc::new(partition_extreme(true));
+        match with_partition(&part, || cold_answers_variant(&part)) {
+            Ok(a) => local.samples.push(json!({"cold_variant": a})),
+            Err(e) => local.fail("history-panic:two-namespaces", json!({"two_namespaces": [0, 0]}), e),
+        }
+        return;
+    }
     if job.starts_with("free:") {
         let (threads, millis) = free_running_params(&job);
         let (done, bad) = free_running(threads, millis);
@@ -715,48 +826,48 @@ fn free_running(threads: usize, millis: u64) -> (u64, Option<(usize, String)>) {
             run_query(b.get(), q)
         })
         .collect();
-    let nsb = NsBox::new(hooks::Mode::Real);
-    let ns = nsb.get();
-    let stop = std::sync::atomic::AtomicBool::new(false);
+    // many short rounds, each on a FRESH namespace (races at the first fill of a cache entry have
+    // one window per namespace), all threads released together by a barrier
     let total = std::sync::atomic::AtomicU64::new(0);
     let bad: std::sync::Mutex<Option<(usize, String)>> = std::sync::Mutex::new(None);
-    let barrier = std::sync::Barrier::new(threads + 1);
-    std::thread::scope(|sc| {
-        for t in 0..threads {
-            let (qs, cold, stop, total, bad, barrier) = (&qs, &cold, &stop, &total, &bad, &barrier);
-            sc.spawn(move || {
-                barrier.wait();
-                let mut done = 0u64;
-                let mut round = 0usize;
-                // thread t walks the queries with its own stride and phase, and in between hammers
-                // one pair of neighbouring queries (tight alternation of two different questions)
-                'outer: while !stop.load(std::sync::atomic::Ordering::Relaxed) {
-                    round += 1;
+    let t0 = std::time::Instant::now();
+    let mut round = 0usize;
+    while t0.elapsed().as_millis() < millis as u128 && bad.lock().unwrap().is_none() {
+        round += 1;
+        let nsb = NsBox::new(hooks::Mode::Real);
+        let ns = nsb.get();
+        let barrier = std::sync::Barrier::new(threads);
+        std::thread::scope(|sc| {
+            for t in 0..threads {
+                let (qs, cold, total, bad, barrier) = (&qs, &cold, &total, &bad, &barrier);
+                sc.spawn(move || {
+                    barrier.wait();
+                    let mut done = 0u64;
+                    // thread t walks the queries with its own stride and phase; every third round
+                    // all threads start on the same query, and a long round (every 8th) keeps
+                    // hammering pairs of neighbouring queries on the warm namespace
                     let stride = 1 + (t + round) % (n - 1);
-                    let mut i = (t * 7 + round) % n;
-                    for _ in 0..n {
+                    let mut i = if round % 3 == 0 { round % n } else { (t * 7 + round) % n };
+                    let laps = if round % 8 == 0 { 6 } else { 1 };
+                    'outer: for _ in 0..laps * n {
                         for k in [i, (i + 1 + t) % n, i] {
                             let a = run_query(ns, &qs[k]);
                             done += 1;
                             if a != cold[k] {
                                 let mut b = bad.lock().unwrap();
                                 if b.is_none() {
-                                    *b = Some((k, format!("thread {t} of {threads}: query {:?} answered {a:?}, alone it answers {:?}", qs[k], cold[k])));
+                                    *b = Some((k, format!("thread {t} of {threads} (round {round}): query {:?} answered {a:?}, alone it answers {:?}", qs[k], cold[k])));
                                 }
-                                stop.store(true, std::sync::atomic::Ordering::Relaxed);
                                 break 'outer;
                             }
                         }
                         i = (i + stride) % n;
                     }
-                }
-                total.fetch_add(done, std::sync::atomic::Ordering::Relaxed);
-            });
-        }
-        barrier.wait();
-        std::thread::sleep(std::time::Duration::from_millis(millis));
-        stop.store(true, std::sync::atomic::Ordering::Relaxed);
-    });
+                    total.fetch_add(done, std::sync::atomic::Ordering::Relaxed);
+                });
+            }
+        });
+    }
     let b = bad.lock().unwrap().clone();
     (total.load(std::sync::atomic::Ordering::Relaxed), b)
 }
@@ -769,7 +880,7 @@ fn free_running_params(job: &str) -> (usize, u64) {
 
 pub fn run(tier: Tier) -> i32 {
     let mut run = Run::new("C14", tier, "model_checking");
-    run.rule = "subject: the real Namespace code over the hook shim. C14-H (E3): breadth-first search from the cold namespace; transition = one of 40 concrete queries (supertypes_of, all_supertypes_of, inheritance, fits and its four wrappers, reflect, Reflection::fits, def_of_dict, tags, is, tag_on, implementation, protos with flattened children, all_subtypes_of, has_relationship with cyclic refs) on a 22-def scenario namespace (two computed associations) (diamond, conjunct, entity, transitive relationship, reciprocal association, children prototypes) rebuilt by replaying the history; state = cache snapshot; to closure; every answer = cold answer = graph answer; run on the genuine DashMap (isolated child, watchdog) and on the Shim (single scheduled thread, all keys in one shard, so a self-deadlock is seen): both transition graphs must be identical. C14-P: every ordered pair of queries (thorough: every triple) and every query after 12 repetitions of every other one, from the cold namespace, independent of cache snapshots (hidden memos). C14-V: every query after 1100 / 2200 look-ups of symbols no def names (volume: more entries than any fixed cache bound) still gives its cold answer. C14-S (E4+E2): scenarios (a) 2 threads x 1 query, all 55 unordered pairs of a 10-query core, from the cold state, from warm states and after the volume warm-up; (b) 2 threads x 2 queries; (c) 3 threads x 1 query, all 220 multisets; for the two extreme shard partitions (thorough: every partition of the touched supertypes keys); every schedule with <= b preemptions (scheduling points: every shard-lock acquisition, thread start/exit). Oracle per execution: no deadlock, no panic, every answer equals the answer given alone, every final cache entry occurs in the sequential closure. C14-F (supplementary, NOT exhaustive — a free-running pass for shared state reached without a shard lock, which the cooperative scheduler cannot preempt): 2 / 8 (thorough 2 / 4 / 16) OS threads answer all queries over one shared namespace with the genuine DashMap for 1.2-1.5 s (thorough 6-15 s), every answer compared with the answer given alone. states = cache states of C14-H + scenario configurations, transitions = history steps + schedules executed".into();
+    run.rule = "subject: the real Namespace code over the hook shim. C14-H (E3): breadth-first search from the cold namespace; transition = one of 40 concrete queries (supertypes_of, all_supertypes_of, inheritance, fits and its four wrappers, reflect, Reflection::fits, def_of_dict, tags, is, tag_on, implementation, protos with flattened children, all_subtypes_of, has_relationship with cyclic refs) on a 22-def scenario namespace (two computed associations) (diamond, conjunct, entity, transitive relationship, reciprocal association, children prototypes) rebuilt by replaying the history; state = cache snapshot; to closure; every answer = cold answer = graph answer; run on the genuine DashMap (isolated child, watchdog) and on the Shim (single scheduled thread, all keys in one shard, so a self-deadlock is seen): both transition graphs must be identical. C14-P: every ordered pair of queries (thorough: every triple) and every query after 12 repetitions of every other one, from the cold namespace, independent of cache snapshots (hidden memos). C14-T: two namespaces with the same def names and different taxonomies alive together, every ordered pair of queries alternately on the one and the other (state keyed by name outside the namespace object). C14-V: every query after 1100 / 2200 look-ups of symbols no def names (volume: more entries than any fixed cache bound) still gives its cold answer. C14-S (E4+E2): scenarios (a) 2 threads x 1 query, all 55 unordered pairs of a 10-query core, from the cold state, from warm states and after the volume warm-up; (b) 2 threads x 2 queries; (c) 3 threads x 1 query, all 220 multisets; for the two extreme shard partitions (thorough: every partition of the touched supertypes keys); every schedule with <= b preemptions (scheduling points: every shard-lock acquisition, thread start/exit). Oracle per execution: no deadlock, no panic, every answer equals the answer given alone, every final cache entry occurs in the sequential closure. C14-F (supplementary, NOT exhaustive — a free-running pass for shared state reached without a shard lock, which the cooperative scheduler cannot preempt): 2 / 8 (thorough 2 / 4 / 16) OS threads answer all queries over one shared namespace with the genuine DashMap for 1.2-1.5 s (thorough 6-15 s), every answer compared with the answer given alone. states = cache states of C14-H + scenario configurations, transitions = history steps + schedules executed".into();
     run.assume("DashMap's own lock is trusted; the Shim models it as a reader-preferring RW lock per shard (shared granted unless a writer holds; exclusive needs the shard free) — read from dashmap-6.1.0/src/lock.rs — and is bound to the genuine DashMap by the identical C14-H transition graphs");
     run.assume("scheduling points at lock acquisitions suffice: all shared data is reached only under those locks");
     run.assume("2 and 3 threads explored exhaustively within the preemption bound; 4-16 threads are out of reach of exhaustive exploration");
@@ -842,17 +953,43 @@ pub fn run(tier: Tier) -> i32 {
                 local.transitions += hist.len() as u64;
                 local.count("pair-histories");
                 match with_partition(&part, || run_history(hooks::Mode::Shim, &hist, &part)) {
-                    Err(e) => local.fail("history-panic:pairs", json!({"history": hist, "backend": "shim"}), e),
+                    Err(e) => local.fail("history-panic:pairs", json!({"history": hist, "backend": "shim", "family": "pairs"}), e),
                     Ok((answers, _)) => {
                         let a = answers.last().unwrap();
                         if *a != cold[j] {
-                            local.fail("history-changes-answer:pairs", json!({"history": hist, "backend": "shim"}), format!("query {:?} after {:?} answers {a:?}, cold answer {:?}", queries()[j], hist[..hist.len() - 1].iter().map(|q| format!("{:?}", queries()[*q])).collect::<Vec<_>>(), cold[j]));
+                            local.fail("history-changes-answer:pairs", json!({"history": hist, "backend": "shim", "family": "pairs"}), format!("query {:?} after {:?} answers {a:?}, cold answer {:?}", queries()[j], hist[..hist.len() - 1].iter().map(|q| format!("{:?}", queries()[*q])).collect::<Vec<_>>(), cold[j]));
                         }
                     }
                 }
             }
         });
         run.absorb(l);
+    }
+
+    // ---- C14-T: two namespaces with the same names and different taxonomies alive together
+    if hs.failure.is_none() {
+        let n = queries().len() - EXTRA;
+        let part = Arc::new(partition_extreme(true));
+        match cold_variant_from_child() {
+            Err(e) => run.stats.fail("history-panic:two-namespaces", json!({"two_namespaces": [0, 0]}), e),
+            Ok(cold2) => {
+                let differing = (0..n).filter(|&i| cold[i] != cold2[i]).count();
+                run.note("two_namespace_queries_with_different_answers", json!(differing));
+                run.require(differing >= 10, "the variant taxonomy answers too few queries differently");
+                // quick: the second query ranges over the 10-query core
+                let nj = tier.pick(10usize, n);
+                let l = par_for(n * nj, |k, local| {
+                    let (i, j) = (k / nj, k % nj);
+                    local.eval();
+                    local.transitions += 4;
+                    local.count("two-namespace-histories");
+                    if let Err((sig, d)) = two_namespace_case(i, j, &cold, &cold2, &part) {
+                        local.fail(&sig, json!({"two_namespaces": [i, j]}), d);
+                    }
+                });
+                run.absorb(l);
+            }
+        }
     }
 
     // ---- C14-V: volume. After more look-ups than any fixed cache bound one would pick (1100
@@ -942,7 +1079,8 @@ pub fn run(tier: Tier) -> i32 {
         run.note("preemption_bound_completed", json!({"2 threads": maxb, "3 threads": maxb.min(2), "supertypes_of x supertypes_of": "unbounded"}));
     }
     // ---- C14-F: free-running pass on real threads (supplementary, not exhaustive)
-    if hs.failure.is_none() {
+    // (run last, and only when the exhaustive parts found nothing: their counterexamples are schedules)
+    if run.stats.fails.is_empty() {
         for (threads, millis) in tier.pick(vec![(2usize, 1200u64), (8, 1500)], vec![(2, 6000), (4, 6000), (16, 15000)]) {
             let name = format!("free:{threads}:{millis}");
             let n2 = name.clone();
@@ -986,12 +1124,28 @@ pub fn replay(case: &J) -> Verdict {
             None => Ok(()),
         };
     }
+    if let Some(p) = case["two_namespaces"].as_array() {
+        let (i, j) = (p[0].as_u64().unwrap_or(0) as usize, p[1].as_u64().unwrap_or(0) as usize);
+        let part = Arc::new(partition_extreme(true));
+        let cold2 = cold_variant_from_child().map_err(|e| ("history-panic:two-namespaces".to_string(), e))?;
+        return two_namespace_case(i, j, &cold, &cold2, &part);
+    }
     let r = RefNs::make(&scenario_rows());
-    if let Some(h) = case["history"].as_array() {
+    if let Some(h) = case["history"].as_array().filter(|_| case["family"] == "pairs" || case["volume"] == true) {
         // one concrete history (pair / repetition / volume families)
         let hist: Vec<usize> = h.iter().map(|x| x.as_u64().unwrap_or(0) as usize).collect();
         let part = Arc::new(if case["volume"] == true { partition_extreme(false) } else { partition_extreme(true) });
-        let fam = if case["volume"] == true { "volume" } else { "pairs" };
+        // the family names the search that found the history: pairs / volume, or the history search
+        // itself on the Shim or on the genuine DashMap (the concrete history is replayed on the Shim)
+        let fam = if case["volume"] == true {
+            "volume"
+        } else if case["family"] == "pairs" {
+            "pairs"
+        } else if case["backend"] == "real" {
+            "real-dashmap"
+        } else {
+            "shim"
+        };
         return match with_partition(&part, || run_history(hooks::Mode::Shim, &hist, &part)) {
             Err(e) => Err((format!("history-panic:{fam}"), e)),
             Ok((answers, _)) => {
